@@ -326,7 +326,9 @@ def runDevs (accu hex : String) : String :=
     let (out, _) := decode P {} .full (parseGlobals accu) (Reader.ofBytes data)
     match out.st.file with
     | none => "none"
-    | some f => XSpec.classify P f.xlog
+    | some f =>
+      let c := XSpec.classify P f.xlog
+      if c = "unclassified" then "unclassified " ++ XSpec.firstDiff P f.xlog else c
 
 def runLine1 (line : String) : String :=
   match splitOnChar line ' ' with
